@@ -13,7 +13,7 @@ import ast
 from ..core import rule, AnalysisError
 from ..engine.facts import dotted, const, src, walk_func
 from ..engine import pattern as P
-from .common import calls, pn, access_paths, assigned_from, canon, branch_paths
+from .common import calls, pn, access_paths, assigned_from, canon, branch_paths, sym_cases, resolve, resolve_deep, guards_of
 from .common import _fold_not as _fold
 from . import c18  # precedence (coding comment > input_encoding > utf-8) is registered for C20 there
 from . import c05  # attribute-pieces (attribute expressions are re-emitted unstripped, so their lines stay put) is registered for C20 there
@@ -199,7 +199,8 @@ def descent(ctx):
     rec = [c for c in calls(fn, "self.extract_nodes")]
     ctx.check(bool(rec), "recursion", db.where(fn), "extract_nodes never recurses", "recurses into child nodes")
     pf = db.func("ext.extract.MessageExtractor.process_file")
-    ok = P.has(pf, "$t = lexer.Lexer(%s.read(), input_encoding=self.config['encoding']).parse()\nyield from self.extract_nodes($t.get_children())" % pn(pf, 1))
+    yf = [y for y in walk_func(pf) if isinstance(y, ast.YieldFrom) and P.matches(y.value, "self.extract_nodes($a)")]
+    ok = len(yf) == 1 and P.matches(resolve_deep(pf, yf[0].value.args[0], 5), "lexer.Lexer(%s.read(), input_encoding=self.config['encoding']).parse().get_children()" % pn(pf, 1))
     ctx.check(ok, "entry", db.where(pf), "process_file does not lex the whole file with the configured encoding", "lexes the file and scans all top-level nodes")
 
 
@@ -348,17 +349,39 @@ def lingua_path(ctx):
     call = [c for c in walk_func(fn) if isinstance(c, ast.Call) and dotted(c.func) == "self.python_extractor"]
     ctx.check(bool(call) and len(call[0].args) == 4 and P.matches(call[0].args[3], "%s - 1" % linep), "base-line", db.where(call[0]) if call else db.where(fn), "the Python extractor is not given code_lineno - 1 as the line before the code", "line before the code = code_lineno - 1")
     # clause handling
-    outer = [i for i in walk_func(fn) if isinstance(i, ast.If) and P.matches(i.test, "$s.endswith(':')")]
-    ctx.require(outer, "process_python: handling of control-line clauses not found (anchor)")
-    o = outer[0]
-    sv = src(o.test.func.value)
-    blank = [i for i in ast.walk(o) if isinstance(i, ast.If) and any(P.matches(s_, "%s = ''" % sv) for s_ in i.body)]
-    words = set()
-    for i in blank:
-        for c_ in ast.walk(i.test):
-            if isinstance(c_, ast.Constant) and isinstance(c_.value, str):
-                words.add(c_.value.rstrip(":"))
-    ctx.check(bool(blank) and words <= {"try", "else", "except", "finally"}, "blanked-clauses", db.where(blank[0]) if blank else db.where(o), "clauses %s are blanked before scanning: a gettext call in the condition of such a line is never reported" % sorted(words - {"try", "else", "except", "finally"}), "only clauses without a condition are blanked: %s" % sorted(words))
-    elif_ = [i for i in ast.walk(o) if isinstance(i, ast.If) and P.matches(i.test, "%s.startswith('elif')" % sv) and any(P.matches(s_, "%s = %s[2:]" % (sv, sv)) for s_ in i.body)]
-    ctx.check(bool(elif_), "elif-as-if", db.where(o), "`% elif cond:` lines are not turned into `if cond:` before scanning: gettext calls in elif conditions are not reported by Lingua", "elif -> if")
-    ctx.check(any(P.matches(s_, "%s += 'pass'" % sv) for s_ in o.body), "completed", db.where(o), "the control line is not completed with a body before scanning", "`pass` appended")
+    # clause handling: the text handed to the Python extractor, case by case, in terms of the code read from the stream
+    sio = [c for c in walk_func(fn) if isinstance(c, ast.Call) and dotted(c.func) in ("io.StringIO", "StringIO") and c.args]
+    ctx.require(sio, "process_python: the text given to the Python extractor not found (anchor)")
+    cases = sym_cases(fn, sio[0].args[0])
+    ctl = [(c_, v_) for c_, v_ in cases if any(P.matches(t_, "$s.endswith(':')") for t_, _ in c_)]
+    ctx.require(ctl, "process_python: handling of control-line clauses not found (anchor)")
+    o = sio[0]
+    words, blanked, elif_ok, completed, plain_ok = set(), 0, False, True, True
+    n_ctl = 0
+    for c_, v_ in cases:
+        e_ = [(t_, tv_) for t_, tv_ in c_ if P.matches(t_, "$s.endswith(':')")]
+        if not e_:
+            continue
+        X = src(e_[0][0].func.value)
+        if not e_[0][1]:
+            plain_ok = plain_ok and src(v_) == X  # not a control line: scanned as it is
+            continue
+        n_ctl += 1
+        others = [(t_, tv_) for t_, tv_ in c_ if t_ is not e_[0][0]]
+        taken = [t_ for t_, tv_ in others if tv_]
+        if isinstance(v_, ast.Constant) and v_.value == "pass":
+            # the line is replaced by a bare `pass`: which clauses?
+            blanked += 1
+            for t_ in taken:
+                for k_ in ast.walk(t_):
+                    if isinstance(k_, ast.Constant) and isinstance(k_.value, str):
+                        words.add(k_.value.rstrip(":"))
+                    elif isinstance(k_, (ast.Tuple, ast.List, ast.Set)):
+                        pass
+        elif any(P.matches(t_, "%s.startswith('elif')" % X) for t_ in taken):
+            elif_ok = src(v_) == "%s[2:] + 'pass'" % X
+        else:
+            completed = completed and src(v_) == "%s + 'pass'" % X
+    ctx.check(blanked > 0 and words <= {"try", "else", "except", "finally"}, "blanked-clauses", db.where(o), "clauses %s are blanked before scanning: a gettext call in the condition of such a line is never reported" % sorted(words - {"try", "else", "except", "finally"}), "only clauses without a condition are blanked: %s" % sorted(words))
+    ctx.check(elif_ok, "elif-as-if", db.where(o), "`% elif cond:` lines are not turned into `if cond:` before scanning: gettext calls in elif conditions are not reported by Lingua", "elif -> if")
+    ctx.check(completed and plain_ok and n_ctl >= 2, "completed", db.where(o), "the control line is not completed with a body before scanning (or other code is altered)", "`pass` appended to control lines, other code scanned as it is (%d cases)" % len(cases))
